@@ -594,6 +594,38 @@ func c06c(c *Ctx) {
 						visit(y.Call.Args[0])
 					case callee(y) == addImp && y.Call.Args[1] == v:
 						otherSink[v] = true
+					default:
+						// handed to a helper that hands it back (possibly after merging more
+						// data into it): `return p.continueX(left, acc, …)` with `acc.add(more); return …, acc, nil`
+						g := callee(y)
+						if g == nil || !c.W.InRepo(g) || len(g.Blocks) == 0 {
+							break
+						}
+						for j, a := range y.Call.Args {
+							if a != v || !impPassesThrough(c, g, j, addFn) {
+								continue
+							}
+							res := y.Call.Signature().Results()
+							for i := 0; i < res.Len(); i++ {
+								if !isImpDataPtr(res.At(i).Type()) {
+									continue
+								}
+								var out ssa.Value
+								if res.Len() == 1 {
+									out = y
+								} else if y.Referrers() != nil {
+									for _, rr := range *y.Referrers() {
+										if ex, ok := rr.(*ssa.Extract); ok && ex.Index == i {
+											out = ex
+										}
+									}
+								}
+								if out != nil {
+									flows[v] = append(flows[v], out)
+									visit(out)
+								}
+							}
+						}
 					}
 				case *ssa.Phi:
 					flows[v] = append(flows[v], y)
@@ -707,4 +739,43 @@ func paramIndexOfTerm(t string) int {
 		return -1
 	}
 	return k
+}
+
+// impPassesThrough: on every return of g that can be a successful one, the *impData result is
+// g's parameter j itself, or a value into which parameter j was merged with add.
+func impPassesThrough(c *Ctx, g *ssa.Function, j int, addFn *ssa.Function) bool {
+	if j >= len(g.Params) || !isImpDataPtr(g.Params[j].Type()) {
+		return false
+	}
+	p := g.Params[j]
+	n := 0
+	for _, r := range returnsOf(g) {
+		if !c.mayBeSuccessRet(g, r) {
+			continue
+		}
+		for _, res := range r.Results {
+			if !isImpDataPtr(res.Type()) {
+				continue
+			}
+			n++
+			var leaves []ssa.Value
+			phiLeaves(res, map[ssa.Value]bool{}, &leaves)
+			for _, lf := range leaves {
+				if lf == ssa.Value(p) {
+					continue
+				}
+				merged := false
+				for _, ci := range callsToIn(g, addFn) {
+					a := ci.Common().Args
+					if len(a) == 2 && a[0] == lf && a[1] == ssa.Value(p) && instrDominates(ci.(ssa.Instruction), r) {
+						merged = true
+					}
+				}
+				if !merged {
+					return false
+				}
+			}
+		}
+	}
+	return n > 0
 }
